@@ -458,7 +458,7 @@ def _positive_const_attr(prog: Program, fi: FuncInfo, e: ast.AST) -> bool:
     return True
 
 
-def _guard_idiom(fn: ast.AST, name: str, use_stmt: ast.stmt, use_node: Optional[ast.AST] = None) -> Optional[str]:
+def _guard_idiom(fn: ast.AST, name: str, use_stmt: ast.stmt, use_node: Optional[ast.AST] = None, fi: Optional[FuncInfo] = None) -> Optional[str]:
     """two correlated-guard idioms under which a name assigned in a conditional block is certainly bound at a later guarded use:
       A  `if c: g = <not None>; name = ..  else: g = None`  ...  `if g is not None: use(name)`
       B  `if flag: name = ..; flag = <narrowed>`            ...  `if flag: use(name)`     (flag not assigned in between)
@@ -503,6 +503,17 @@ def _guard_idiom(fn: ast.AST, name: str, use_stmt: ast.stmt, use_node: Optional[
             for v in p.values[:p.values.index(cur)]:
                 guards.append(ast.IfExp(test=v, body=cur, orelse=cur))
         cur = p
+    # a guard established by an earlier early exit (`if g is None: return ..`) shows up as a path fact of the use statement
+    if fi is not None:
+        ffg = facts_for(fi)
+        su = ffg.stmt_of(use_stmt) if hasattr(ffg, "stmt_of") else None
+        if su is not None:
+            for op, l, r in su.facts:
+                if op == "isnot" and r == "None":
+                    for g in {n.id for n in ast.walk(fn) if isinstance(n, ast.Name) and isinstance(n.ctx, ast.Store)}:
+                        if g != name and U(ffg.resolved(su.stmt, ast.Name(id=g, ctx=ast.Load()))) == l:
+                            guards.append(ast.IfExp(test=ast.Compare(left=ast.Name(id=g, ctx=ast.Load()), ops=[ast.IsNot()], comparators=[ast.Constant(value=None)]),
+                                                    body=ast.Constant(value=None), orelse=ast.Constant(value=None)))
     for guard in guards:
         t = guard.test
         # idiom A
@@ -555,7 +566,7 @@ def unbound_locals(prog: Program, rep) -> None:
             if (r.name, id(r.stmt)) not in hard:
                 rep.note(f"undecided: {fi.loc(r.node)} `{r.name}` in {fi.short} is unbound if a loop before it executes zero times (emptiness of the iterable is not decided)")
                 continue
-            why = _guard_idiom(fi.node, r.name, r.stmt, r.node)
+            why = _guard_idiom(fi.node, r.name, r.stmt, r.node, fi)
             rep.check(why is not None, "no-unbound-local", fi.qualname, short(r.stmt),
                       (f"`{r.name}` is bound whenever it is read ({why})" if why else
                        f"`{r.name}` is bound whenever it is read (there is a path to this statement - a break, an early branch or an untaken `if` before its only assignments - on which it was never assigned: UnboundLocalError)"),
